@@ -431,6 +431,36 @@ func c07Jobs(x *mon.Ctx, base *world.World) []*world.Case {
 			}
 		}
 	}
+	// the QE's version is the ISVSVN of the (PCK-signed) QE report. The quote HEADER also carries a "QE SVN", a "PCE SVN" and a QE
+	// vendor id, written by whoever assembled the quote: none of them selects the level or switches the comparison off —
+	// whatever they are, and whatever the report's ISVSVN is (zero included)
+	for _, v := range []uint16{0, 3, 5} {
+		for _, hq := range []uint16{0, 3, 5, 6, 0xffff} {
+			for pi, hp := range []uint16{base.P.PceSvn, 0, base.P.PceSvn + 1} {
+				for vi := 0; vi < 2; vi++ {
+					if vi == 1 && (hq+uint16(pi))%2 == 1 {
+						continue
+					}
+					w := base.Clone()
+					binary.LittleEndian.PutUint16(w.Q.QeReport[0x102:], v)
+					binary.LittleEndian.PutUint16(w.Q.Header[8:], hp)
+					binary.LittleEndian.PutUint16(w.Q.Header[10:], hq)
+					if vi == 1 {
+						for i := 12; i < 28; i++ {
+							w.Q.Header[i] ^= 0x5a // another vendor's id
+						}
+					}
+					w.Requote()
+					w.Qe.Levels = []world.IsvLevel{{Isv: 5, Status: "UpToDate"}, {Isv: 0, Status: "OutOfDate"}}
+					exp := "reject"
+					if v == 5 {
+						exp = "accept"
+					}
+					emit(w, "header-fields-are-not-the-qe-reports", fmt.Sprintf("isvsvn=%d/header-qe-svn=%d/header-pce-svn=%s/vendor=%d", v, hq, []string{"certificates", "0", "other"}[pi], vi), exp)
+				}
+			}
+		}
+	}
 	// report ISVSVN moved against fixed levels (byte-order traps)
 	for _, v := range []uint16{0, 1, 0x00ff, 0x0100, 0xff00, 0xffff} {
 		for _, lv := range []uint32{0, 1, 0x00ff, 0x0100, 0xff00, 0xffff} {
@@ -532,6 +562,7 @@ func c07(x *mon.Ctx) {
 	x.Require("deciding-level-with-odd-tcbdate", 0, 27, 36)
 	x.Require("unsigned-member-completes-signed-identity", 0, 30, 30)
 	x.Require("message-isvsvn-wider-than-signed", 0, 6, 6)
+	x.Require("header-fields-are-not-the-qe-reports", 15, 30, 60)
 	x.Require("levels-1", 2, 19, 21)
 	x.Require("levels-2", 40, 380, 441)
 	x.Extra["exhaustive_1_and_2_level_space"] = true
